@@ -196,6 +196,11 @@ def direct_oracles(case, plines, widths):
             break
         n_actions += len(l['logs'])
         for a in l['logs']:
+            if len(a) > 7 and a[7] == 'STALE':
+                # `reset_accepting_state()` precedes every action call and `backtrack()` takes the saved match:
+                # an action that runs while a match is still saved means an abandoned candidate can resurface later
+                for pr in ('C01', 'C03', 'C09', 'C10'):
+                    bad.setdefault(pr, 'a semantic action (rule %s) ran while an earlier candidate match was still saved' % a[1])
             if not (loc_ok(a[2]) and loc_ok(a[3])) or byte_of(a[2]) > byte_of(a[3]):
                 bad['C06'] = 'action view location %s..%s is not the scan location of that byte' % (a[2], a[3])
             if a[5] not in ('!',):
@@ -378,7 +383,17 @@ def make_cases(d, dd, rng, builtins, p, fixed_inputs, fixed_scripts):
             e['ctor'] = ctor
             e['id'] = c['id'][:-1] + str(ctor)
             extra.append(e)
-    for c in sub[-p['clone_inputs'] * 2:]:
+    # clone points: short inputs spread over ALL scripts (so that clones are taken inside other rule sets, after switches,
+    # after errors and after continues), plus the special-character inputs
+    pool = [c for c in cases if 2 <= len(c['input']) <= 8]
+    want = p['clone_inputs'] * 8
+    stride = max(1, len(pool) // want) if pool else 1
+    chosen = pool[::stride][:want] + sub[-p['clone_inputs'] * 2:]
+    seen_ids = set()
+    for c in chosen:
+        if c['id'] in seen_ids:
+            continue
+        seen_ids.add(c['id'])
         e = dict(c)
         e['id'] = c['id'] + 'c'
         e['clones'] = list(range(0, c['ncalls']))
